@@ -243,21 +243,123 @@ inductive AdmmSolver where
   | generic | linearScicoCG | linearOther | checked | other
 deriving Repr, DecidableEq
 
+/-- one statistics column: header, display format, attribute expression evaluated on the optimiser
+    object (`"obj." ++ attrib`) -/
+structure FieldSpec where
+  name : String
+  fmt : String
+  attrib : String
+deriving Repr, DecidableEq
+
+/-- `_itstat_default_fields`: `Iter`, `Time`, and `Objective` when `_objective_evaluatable()` -/
+def objectiveFieldSpecs : List FieldSpec := [⟨"Objective", "%9.3e", "objective()"⟩]
+
+def defaultFieldSpecs (objectiveEvaluable : Bool) : List FieldSpec :=
+  [⟨"Iter", "%d", "itnum"⟩, ⟨"Time", "%8.2e", "timer.elapsed()"⟩] ++
+    (if objectiveEvaluable then objectiveFieldSpecs else [])
+
+def residualFieldSpecs : List FieldSpec :=
+  [⟨"Prml Rsdl", "%9.3e", "norm_primal_residual()"⟩, ⟨"Dual Rsdl", "%9.3e", "norm_dual_residual()"⟩]
+
+/-- the `if / elif` chain of `ADMM._itstat_extra_fields`: columns added for the sub-problem solver -/
+def admmSolverFieldSpecs : AdmmSolver → List FieldSpec
+  | .generic => [⟨"Num FEv", "%6d", "subproblem_solver.info['nfev']"⟩, ⟨"Num It", "%6d", "subproblem_solver.info['nit']"⟩]
+  | .linearScicoCG =>
+    [⟨"CG It", "%5d", "subproblem_solver.info['num_iter']"⟩, ⟨"CG Res", "%9.3e", "subproblem_solver.info['rel_res']"⟩]
+  | .checked => [⟨"Slv Res", "%9.3e", "subproblem_solver.accuracy"⟩]
+  | _ => []
+
+/-- the conditions of that chain, in source order (source text) -/
+def admmSolverCond : AdmmSolver → String
+  | .generic => "isinstance(self.subproblem_solver, GenericSubproblemSolver)"
+  | .linearScicoCG =>
+    "type(self.subproblem_solver) == LinearSubproblemSolver and self.subproblem_solver.cg_function == 'scico'"
+  | .checked =>
+    "type(self.subproblem_solver) in [MatrixSubproblemSolver, FBlockCircularConvolveSolver, G0BlockCircularConvolveSolver] and self.subproblem_solver.check_solve"
+  | _ => ""
+
 /-- `_itstat_extra_fields` -/
-def extraFields : OptClass → AdmmSolver → List String
-  | .admm, sv => ["Prml Rsdl", "Dual Rsdl"] ++
-      (match sv with
-       | .generic => ["Num FEv", "Num It"]
-       | .linearScicoCG => ["CG It", "CG Res"]
-       | .checked => ["Slv Res"]
-       | _ => [])
-  | .pgm, _ => ["L", "Residual"]
-  | .apgm, _ => ["L", "Residual"]
-  | _, _ => ["Prml Rsdl", "Dual Rsdl"]
+def extraFieldSpecs : OptClass → AdmmSolver → List FieldSpec
+  | .admm, sv => residualFieldSpecs ++ admmSolverFieldSpecs sv
+  | .pgm, _ => [⟨"L", "%9.3e", "L"⟩, ⟨"Residual", "%9.3e", "norm_residual()"⟩]
+  | .apgm, _ => [⟨"L", "%9.3e", "L"⟩, ⟨"Residual", "%9.3e", "norm_residual()"⟩]
+  | _, _ => residualFieldSpecs
+
+/-- all columns of a record, in order -/
+def fieldSpecs (c : OptClass) (sv : AdmmSolver) (objectiveEvaluable : Bool) : List FieldSpec :=
+  defaultFieldSpecs objectiveEvaluable ++ extraFieldSpecs c sv
 
 /-- `_itstat_default_fields` followed by the extra fields: the column names of a record -/
 def fieldNames (c : OptClass) (sv : AdmmSolver) (objectiveEvaluable : Bool) : List String :=
-  ["Iter", "Time"] ++ (if objectiveEvaluable then ["Objective"] else []) ++ extraFields c sv
+  (fieldSpecs c sv objectiveEvaluable).map (·.name)
+
+/-- the attributes `_working_vars_finite` passes to `_all_finite`, in evaluation order
+    (`*name`: every element of the list attribute `name`) -/
+def workingVarNames : OptClass → List String
+  | .admm => ["x", "*z_list", "*u_list"]
+  | .ladmm => ["x", "z", "u"]
+  | .padmm => ["x", "z", "u"]
+  | .nlpadmm => ["x", "z", "u"]
+  | .pdhg => ["x", "z"]
+  | .pgm => ["x"]
+  | .apgm => ["x", "v"]
+
+/-- source text of the statistics function `itstat_func_and_object` assembles and `exec`s:
+    `"def itstat_func(obj): " + "return(" + ", ".join(["obj." + attr …]) + ")"` -/
+def itstatFuncSource (attribs : List String) : String :=
+  "def itstat_func(obj): " ++ "return(" ++ ", ".intercalate (attribs.map ("obj." ++ ·)) ++ ")"
+
+/-! ### the same tables in the shape the translator reads them from the source
+
+`harness/driver_translate.py` regenerates `Scico/Generated/DriverFields.lean` (`src : FieldTables`) from the
+working tree on every run and closes `src = fieldTables` by `decide`. -/
+
+def OptClass.tag : OptClass → String
+  | .admm => "admm" | .ladmm => "ladmm" | .padmm => "padmm" | .nlpadmm => "nlpadmm"
+  | .pdhg => "pdhg" | .pgm => "pgm" | .apgm => "apgm"
+
+/-- the Python class -/
+def OptClass.pyName : OptClass → String
+  | .admm => "ADMM" | .ladmm => "LinearizedADMM" | .padmm => "ProximalADMM" | .nlpadmm => "NonLinearPADMM"
+  | .pdhg => "PDHG" | .pgm => "PGM" | .apgm => "AcceleratedPGM"
+
+structure ClassTable where
+  tag : String
+  name : String
+  /-- the dict / list `_itstat_extra_fields` starts from -/
+  base : List FieldSpec
+  /-- the `if / elif` chain: (condition, columns added) -/
+  branches : List (String × List FieldSpec)
+  /-- arguments of `_all_finite` in `_working_vars_finite` -/
+  vars : List String
+deriving Repr, DecidableEq
+
+structure FieldTables where
+  default : List FieldSpec
+  objectiveCond : String
+  objective : List FieldSpec
+  /-- right-hand side of `itstat_return = …` -/
+  itstatReturn : String
+  /-- argument of `exec(…)` -/
+  itstatExec : String
+  classes : List ClassTable
+deriving Repr, DecidableEq
+
+def classTableOf (c : OptClass) : ClassTable :=
+  { tag := c.tag, name := c.pyName, base := extraFieldSpecs c .other,
+    branches := if c = .admm then
+        [AdmmSolver.generic, .linearScicoCG, .checked].map (fun sv => (admmSolverCond sv, admmSolverFieldSpecs sv))
+      else [],
+    vars := workingVarNames c }
+
+/-- the model's tables -/
+def fieldTables : FieldTables :=
+  { default := defaultFieldSpecs false
+    objectiveCond := "self._objective_evaluatable()"
+    objective := objectiveFieldSpecs
+    itstatReturn := "'return(' + ', '.join(['obj.' + attr for attr in itstat_attrib]) + ')'"
+    itstatExec := "'def itstat_func(obj): ' + itstat_return"
+    classes := [OptClass.admm, .ladmm, .padmm, .nlpadmm, .pdhg, .pgm, .apgm].map classTableOf }
 
 /-! ## `IterationStats` -/
 
@@ -435,6 +537,123 @@ def solvePinnedItnum (maxiter : Int) (itnumAfterLoop : Int) : Int :=
 
 /-- `solver.maxiter = m` between calls -/
 def Drv.setMaxiter (d : Drv ω ρ L) (m : Int) : Drv ω ρ L := { d with maxiter := m }
+
+end
+
+/-! ## callbacks that assign the driver's own attributes -/
+
+/-- a callback that may also assign `optimizer.itnum` / `optimizer.maxiter`: `ctl w i m` = the
+    values of the two attributes when the callback returns, given the state and the values it finds -/
+structure CallbackX (ω : Type) extends Callback ω where
+  ctl : ω → Int → Int → Int × Int
+
+section
+variable {ω ρ ξ α L : Type} [DecidableEq L]
+
+/-- `body` with such a callback -/
+def bodyX (E : Env ω ρ ξ α) (cb : Option (CallbackX ω)) (d : Drv ω ρ L) (i : Int) :
+    Drv ω ρ L × Outcome :=
+  let d := { d with itnum := i }
+  let d := { d with world := E.step d.world, clock := d.clock + E.stepTicks d.world }
+  if d.nanstop && !(workingVarsFinite E.fin (E.vars d.world)) then (d, .nan)
+  else
+    let row : Row ρ := ⟨d.itnum, d.timer.elapsedDefault true d.clock, E.fields d.world⟩
+    let d := { d with rows := statsInsert d.rows row }
+    match cb with
+    | none => (d, .ok)
+    | some c =>
+      match d.timerStop with
+      | (d, false) => (d, .key)
+      | (d, true) =>
+        let enter := d.clock
+        let seen := d.world
+        let a := c.ctl d.world d.itnum d.maxiter
+        let d := { d with world := c.run d.world, clock := d.clock + c.ticks d.world }
+        let rec_ : CbRec ω := ⟨d.itnum, seen, enter, d.clock⟩
+        let d := { d with cblog := d.cblog ++ [rec_], itnum := a.1, maxiter := a.2 }
+        (d.timerStart, .ok)
+
+def loopX (E : Env ω ρ ξ α) (cb : Option (CallbackX ω)) : Nat → Int → Drv ω ρ L → Drv ω ρ L × Outcome
+  | 0, _, d => (d, .ok)
+  | n + 1, i, d =>
+    match bodyX E cb d i with
+    | (d', .ok) => loopX E cb n (i + 1) d'
+    | r => r
+
+/-- `Optimizer.solve(callback)` with an attribute-assigning callback.  The `range` of the loop is
+    evaluated once, before the first iteration.  `late = true`: the tree as it is — the final
+    `if self.maxiter > 0: self.itnum += 1` reads the attribute *after* the loop (a callback that
+    sets it to a non-positive value leaves the counter one short: finding
+    `callback-maxiter-counter`); `late = false`: the repaired behaviour — the decision uses the
+    value `maxiter` had when the call started. -/
+def solveX (late : Bool) (E : Env ω ρ ξ α) (cb : Option (CallbackX ω)) (d : Drv ω ρ L) :
+    Drv ω ρ L × Outcome :=
+  let d0 := d.timerStart
+  match loopX E cb d0.maxiter.toNat d0.itnum d0 with
+  | (d1, .ok) =>
+    match d1.timerStop with
+    | (d2, false) => (d2, .key)
+    | (d2, true) =>
+      let d3 := if (if late then d2.maxiter else d.maxiter) > 0 then { d2 with itnum := d2.itnum + 1 } else d2
+      (d3, .ok)
+  | r => r
+
+end
+
+/-! ## `scico.util.ContextTimer` -/
+
+/-- `ContextTimer.action` -/
+inductive CtxAction where
+  | startStop | stopStart
+deriving Repr, DecidableEq
+
+section
+variable {L : Type} [DecidableEq L]
+
+/-- the `labels` argument `ContextTimer` passes on: `self.label` (`None` or one label) -/
+def ctxArg : Option L → Arg L
+  | none => .none
+  | some l => .one l
+
+/-- `ContextTimer.__enter__` at clock value `t`; `false` = `KeyError` (only `StopStart`) -/
+def ctxEnter (T : Timer L) (label : Option L) (a : CtxAction) (t : Nat) : Timer L × Bool :=
+  match a with
+  | .startStop => (T.start (ctxArg label) t, true)
+  | .stopStart => T.stop (ctxArg label) t
+
+/-- `ContextTimer.__exit__` at clock value `t`; `false` = `KeyError` -/
+def ctxExit (T : Timer L) (label : Option L) (a : CtxAction) (t : Nat) : Timer L × Bool :=
+  match a with
+  | .startStop => T.stop (ctxArg label) t
+  | .stopStart => (T.start (ctxArg label) t, true)
+
+/-! ## `Timer.__str__` -/
+
+/-- insertion into a list sorted by `lt` (`sorted(self.t0)`; dictionary keys are distinct) -/
+def insertSorted (lt : L → L → Bool) (x : L) : List L → List L
+  | [] => [x]
+  | y :: ys => if lt y x then y :: insertSorted lt x ys else x :: y :: ys
+
+def sortLabels (lt : L → L → Bool) (ls : List L) : List L := ls.foldr (insertSorted lt) []
+
+/-- one line of the table `Timer.__str__` prints: label, accumulated time `td`, and the time
+    since the current start (`none` = the text `Stopped`) -/
+structure StrRow (L : Type) where
+  label : L
+  accum : Nat
+  current : Option Nat
+deriving Repr, DecidableEq
+
+/-- the lines of `Timer.__str__` at clock value `t`, labels in sorted order (documented behaviour;
+    the tree as it is raises `TypeError` whenever some timer is running: finding
+    `timer-str-running`) -/
+def Timer.strRows (lt : L → L → Bool) (T : Timer L) (t : Nat) : List (StrRow L) :=
+  (sortLabels lt T.store.keys).filterMap (fun l =>
+    (T.store.get l).map (fun e => ⟨l, e.td, e.t0.map (fun s => t - s)⟩))
+
+/-- the tree as it is: `TypeError` (`none`) iff some timer is running -/
+def Timer.strRowsPinned (lt : L → L → Bool) (T : Timer L) (t : Nat) : Option (List (StrRow L)) :=
+  if T.store.any (fun p => p.2.t0.isSome) then none else some (T.strRows lt t)
 
 end
 
